@@ -138,6 +138,7 @@ let normalise (sc : scen) (raw : string array) : string array =
        (match kind p1, kind p2 with
         | "L" :: _, "US" :: "LE" :: _ -> set a "a0"
         | "L" :: _, "US" :: "LT" :: _ -> set a "a3"
+        | "AL" :: _, "L" :: _ when (let p3 = if p2 >= 0 then prev_same.(p2) else -1 in (match kind p3 with "US" :: "LT" :: _ -> true | _ -> false)) -> set a "a0"
         | _ -> ())
      | _ -> ())
   done;
